@@ -13,7 +13,9 @@ pub mod c11;
 pub mod c12;
 pub mod c15;
 pub mod c17;
+pub mod bin;
 pub mod c18;
+pub mod c18b;
 pub mod codec;
 pub mod mini;
 
@@ -32,5 +34,6 @@ pub fn main() -> i32 {
     checks.extend(c15::checks());
     checks.extend(c17::checks());
     checks.extend(c18::checks());
+    checks.extend(c18b::checks());
     vcore::driver("vp-inproc", checks)
 }
